@@ -190,6 +190,16 @@ type (
 		M4 map[uint8]CuFreshC `serix:",lenPrefix=uint32"`
 		M5 map[CuTab][]byte   `serix:",lenPrefix=uint8"`
 	}
+	// struct tags competing with registered settings (a tag's prefix wins, a tag's bounds replace the
+	// registered array rules as a whole — CSorted then is neither sorted nor checked for order)
+	CPrioTags struct {
+		A CSorted `serix:",lenPrefix=uint16"`
+		B CSorted `serix:",maxLen=2"`
+		C CU16s   `serix:",minLen=0"`
+		D CU16s   `serix:",lenPrefix=uint8,maxLen=0"`
+		E CStr16  `serix:",lenPrefix=uint8"`
+		F CStr16  `serix:",maxLen=0"`
+	}
 	CEmpty      struct{}
 	CEmptyDups  []CEmpty
 	CTimeKeyMap map[time.Time]uint8
@@ -276,6 +286,19 @@ var catalogue = []catEntry{
 	{name: "wides", top: CWides{}},
 	{name: "arrays", top: CArrays{}},
 	{name: "maps", top: CMaps{}},
+	// settings priority: per-call option / struct tag over registered settings, explicit "off" values included
+	{name: "prio-lex-off", top: CSorted{}, ts: tsp(serix.TypeSettings{}.WithLexicalOrdering(false))},
+	{name: "prio-lex-on", top: CU16s{}, ts: tsp(serix.TypeSettings{}.WithLexicalOrdering(true))},
+	{name: "prio-lex-on-rules", top: []uint16{}, ts: tsp(serix.TypeSettings{}.WithLexicalOrdering(true).WithArrayRules(&serix.ArrayRules{
+		ValidationMode: serializer.ArrayValidationModeLexicalOrdering}))},
+	{name: "prio-lp", top: CSorted{}, ts: tsp(lpTS(serix.LengthPrefixTypeAsUint32))},
+	{name: "prio-rules-off", top: CU16s{}, ts: tsp(serix.TypeSettings{}.WithArrayRules(&serix.ArrayRules{}))},
+	{name: "prio-min0", top: CU16s{}, ts: tsp(serix.TypeSettings{}.WithMinLen(0))},
+	{name: "prio-sorted-rules-off", top: CSorted{}, ts: tsp(serix.TypeSettings{}.WithMaxLen(0))},
+	{name: "prio-code", top: CInnerCoded{}, ts: tsp(serix.TypeSettings{}.WithObjectType(uint32(77)))},
+	{name: "prio-code-ptr", top: &CInnerCoded{}, ts: tsp(serix.TypeSettings{}.WithObjectType(uint8(78)))},
+	{name: "prio-str", top: CStr16(""), ts: tsp(lpTS(serix.LengthPrefixTypeAsByte).WithMinLen(0))},
+	{name: "prio-tags", top: CPrioTags{}},
 	{name: "customs", top: CCustoms{}, prep: customPrep},
 	{name: "customs-ptr", top: &CCustoms{}, prep: customPrep},
 	{name: "top-custom-map", top: map[CuTab]uint32{}, ts: tsp(lpTS(serix.LengthPrefixTypeAsByte))},
